@@ -248,16 +248,21 @@ PROPS = {
               "distinct, 0 not defined, names non-empty without ':') every defined non-zero value renders to its name or module:name and each form parses back to the same value "
               "(c17_bijection, c17_render_parse, c17_bijection_json), names are unique (c17_names_unique), a field holding UNSET is never rendered (c17_unset_not_rendered_partial), "
               "undefined values make every renderer fail (c17_undefined_errors); tbl_okb_full decides the declarative statement (c17_tbl_ok_spec). Every run regenerates every ΛEnum "
-              "table of the generated packages and of the enum-naming flag matrix and re-proves c17_all_generated_tables_ok by vm_compute, lifted by c17_lift.",
-        note="Trusted: Coq kernel; hand transcription tied by the 'enum' stream; the table translator lib/c17_pre.py (regexp over the ΛEnum literal; cross-checked against the compiled "
+              "table of the generated packages and of the enum-naming flag matrix and re-proves c17_all_generated_tables_ok by vm_compute, lifted by c17_lift. "
+              "Names containing ':' (enum \"ipv4:unicast\"): on a table accepted by tblc_okb (keys = names after StripModulePrefix distinct and non-empty) render-then-parse is the identity "
+              "(c17_colon_bijection, _render_parse, _bijection_json), the accepted strings are exactly those with strip(name e) = strip s (c17_colon_parse_iff), tbl_okb_full implies tblc_okb "
+              "(c17_colon_generalises); the regenerated obligation is tbl_checkb on every table, lifted by c17_colon_lift.",
+        note="Trusted: Coq kernel; hand transcription tied by the 'enum' and 'enumcolon' streams; the table translator lib/c17_pre.py (regexp over the ΛEnum literal; cross-checked against the compiled "
              "maps every run); goyang as the independent reader of enum/identity statements. Translation validation: the generator itself is not modelled beyond its numbering.",
-        coq_files=["Tree/Codec", "Tree/CodecProofs", "Scalar/EnumTable", "Scalar/EnumTableProofs", "Corr/EnumCorr"],
-        streams=[dict(name="enum", n=N(5000, 12000))],
+        coq_files=["Tree/Codec", "Tree/CodecProofs", "Scalar/EnumTable", "Scalar/EnumTableProofs", "Scalar/EnumColon", "Scalar/EnumColonProofs", "Corr/EnumCorr"],
+        streams=[dict(name="enum", n=N(5000, 12000)), dict(name="enumcolon", n=N(1500, 4000))],
         signatures=["enum/"],
         pre=lambda tier, seed: __import__("c17_pre").pre(tier, seed),
         trusted=["lib/c17_pre.py parses the generated Go source", "castToEnumValue ranges over a Go map: first match in ascending value order in the model (same on tables with distinct names)"],
         partial="c17_unset_not_rendered_partial covers struct fields and union members in JSON; the full statement is refuted (c17_unset_refuted: EnumName/KeyValueAsString/EncodeTypedValue/"
-                "leaf-list elements render UNSET as \"\", wrapper unions panic: known findings). 'All schemas' is per-run validation of the corpus x flag matrix.",
+                "leaf-list elements render UNSET as \"\", wrapper unions panic: known findings). 'All schemas' is per-run validation of the corpus x flag matrix. "
+                "For names with ':' 'an undefined name is rejected' is refuted (c17_colon_undefined_rejected_refuted: \"zz:unicast\" and \"unicast\" parse; the _partial form holds without colon "
+                "names), a module prefix in front of a colon name is rejected (c17_colon_prefix_refuted), names with the same part after the ':' are confused (c17_colon_same_suffix_refuted).",
     ),
     "C02": dict(
         level="proof",
@@ -466,16 +471,21 @@ PROPS = {
     ),
     "C30": dict(
         level="proof",
-        technique="Coq proof (upward walk = XPath parent; traversal = set of leafref leaves) + differential correspondence + brute-force oracle",
+        technique="Coq proof (upward walk = XPath parent; key predicates substituted then selected; traversal = set of leafref leaves) + differential correspondence + independent XPath oracle",
         claim="validate_leafrefs reports an error exactly when some set leafref leaf's value is not among the values its path selects (c30_iff), the two-step algorithm's upward walk selects what "
-              "the path denotes (c30_two_step_is_select), nothing is reported with IgnoreMissingData (c30_ignore_missing); checked against Validate in three option modes; oracle evaluates every "
-              "leafref path by brute force on the leaf map.",
-        note="Trusted: Coq kernel; uncompressed structs only (in compressed code key and target are one field); XPath subset without predicates (none in the corpus); ytypes.GetNode modelled by its result.",
-        coq_files=["Tree/Leafref", "Tree/LeafrefProofs", "Corr/ValidCorr"],
-        streams=[dict(name="leafref", n=N(600, 1500))],
+              "the path denotes (c30_two_step_is_select), nothing is reported with IgnoreMissingData (c30_ignore_missing). With key predicates [k=current()/rel]: c30p_iff / c30p_leaf_iff (error iff "
+              "the value is not among the values the path with predicates selects), c30p_step_one, c30p_step_two_is_select, c30p_plain_paths (the generalised model = Leafref.v on predicate-free "
+              "tables), c30p_ignore_missing. Checked against Validate in three option modes; stream leafrefp compares classified errors (class, field); the oracle evaluates every leafref path "
+              "XPath-style on a plain node tree.",
+        note="Trusted: Coq kernel; uncompressed structs only (in compressed code key and target are one field); key predicates [k=current()/rel] and literals; ytypes.GetNode modelled by its result.",
+        coq_files=["Tree/Leafref", "Tree/LeafrefProofs", "Tree/LeafrefPred", "Tree/LeafrefPredProofs", "Corr/ValidCorr", "Corr/LeafrefPredCorr"],
+        streams=[dict(name="leafref", n=N(600, 1500)), dict(name="leafrefp", n=N(400, 3000))],
         signatures=["leafref/"],
-        trusted=["leafref side table printed by vd_leafref.go"],
-        partial="c30_iff guarded by: no leafref inside an unkeyed list, no binary leafref value; refuted without: c30_refuted_binary (panic), c30_refuted_unkeyed; predicates not modelled.",
+        trusted=["leafref side table printed by vd_leafref.go", "predicate side table printed by vd_leafrefp.go (own RFC 7950 9.9.2 path parser; `prefixed` = operand text holds ':')"],
+        partial="c30_iff guarded by: no leafref inside an unkeyed list, no binary leafref value (c30_refuted_binary, c30_refuted_unkeyed). Predicates (c30p_iff) additionally guarded by leaf_regular: "
+                "at most one predicate per element (c30p_refuted_two_predicates), unprefixed single-valued operand (c30p_refuted_prefixed_operand, c30p_refuted_operand_node_set), operand value not '*' "
+                "(c30p_refuted_star), no entry keyed by the substituted '' when the operand is unset (c30p_refuted_empty_key: ~c30p_full), predicate names a key, single-key entries print differently; "
+                "ordered-by-user lists with predicates and the per-node memo not modelled.",
     ),
     "C31": dict(
         level="proof",
